@@ -69,6 +69,9 @@ func (c Config) Name() string {
 	}
 	if c.Late {
 		n += "/late-answer"
+		if c.NestedKind == "alive" {
+			n += "-nested-stays-alive"
+		}
 	}
 	return n
 }
@@ -326,6 +329,9 @@ func build(cfg Config, s *bubble.Sched) *world {
 	if cfg.Mix == "closeerr" {
 		la.CloseErr = errClose
 	}
+	if cfg.Mix == "closepanic" {
+		la.Inner = panicClose{la.Inner}
+	}
 	mapElem := func(name string) *bubble.Logging {
 		l := w.logging(name, park, local(3))
 		if strings.HasSuffix(cfg.Mix, "-closeerr") && name == "r[1]" {
@@ -336,7 +342,7 @@ func build(cfg Config, s *bubble.Sched) *world {
 
 	var r distsys.ArchetypeResource
 	switch cfg.Mix {
-	case "plain", "closeerr":
+	case "plain", "closeerr", "closepanic":
 		r = w.logging("r", park, local(2))
 	case "twopc":
 		// a 2PC resource without replicas (its pre-commit succeeds locally); its Close asserts that it is not
@@ -363,6 +369,8 @@ func build(cfg Config, s *bubble.Sched) *world {
 		var nestedOpts []distsys.MPCalContextConfigFn
 		if selfEnding {
 			switch {
+			case cfg.Late && cfg.NestedKind == "alive":
+				ends, endReq = "", 0 // it answers the (late) read and goes on serving
 			case cfg.Late:
 				ends, endReq = "done", 1 // it answers the (late) read and reaches Done
 			case cfg.proto():
@@ -410,6 +418,11 @@ func build(cfg Config, s *bubble.Sched) *world {
 		distsys.EnsureArchetypeRefParam("r", r))
 	return w
 }
+
+// panicClose is a resource whose Close panics (extra configurations only, see C17_EXTRA).
+type panicClose struct{ distsys.ArchetypeResource }
+
+func (panicClose) Close() error { panic("verif: this resource's Close panics") }
 
 // safeRun calls Run and turns a panic into a message.
 func safeRun(ctx *distsys.MPCalContext) (err error, panicked string) {
